@@ -126,94 +126,176 @@ def vars_in(fn, nid):
     return {fn.nodes[x]['d'] for x in fn.subtree(nid) if fn.nodes[x].get('k') == 'var' and fn.nodes[x].get('vk') in ('local', 'param')}
 
 
-def _cursor_of(fn, text):
+def cursor_lvalue(fn, text):
+    """canonical text of the pointer lvalue that the read `text` goes through (`*s` -> `s`, `**s` -> `*s`)"""
     for n in fn.all_nodes():
         if n.get('k') == 'unop' and n.get('op') == '*' and fn.expr(n['id']) == text:
-            rv = fn.root_var(n['id'])
-            if rv is not None and rv[0] == 'var' and is_var(fn, n['sub'], rv[1]):
-                return rv[1]
-    raise Broken('%s: %s is not a byte read through a local pointer variable' % (fn.q, text))
+            return fn.expr(fn.strip(n['sub']))
+    raise Broken('%s: read %s not found' % (fn.q, text))
+
+
+def lvalue_modifications(fn, ptext):
+    """element node ids that may change the lvalue with canonical text ptext (a pointer variable `s` or `*s` behind a
+    pointer-to-pointer parameter): assignment, compound assignment, ++/--, address taken."""
+    out = []
+    for n in fn.all_nodes():
+        k = n.get('k')
+        if k == 'assign' and fn.expr(fn.strip(n['lhs'])) == ptext:
+            out.append(n['id'])
+        elif k == 'unop' and n['op'] in ('++', '--', '&') and fn.expr(fn.strip(n['sub'])) == ptext:
+            out.append(n['id'])
+    return out
+
+
+def cursor_text(fn):
+    """Canonical text of THE byte read through a pointer variable (`*s`, `*data`) of this function; exactly one expected."""
+    texts = set()
+    for n in fn.all_nodes():
+        if n.get('k') == 'unop' and n.get('op') == '*':
+            ty = int_type(n.get('t'))
+            if ty is not None and ty[1] == 8 and fn.root_var(n['id']) is not None and fn.root_var(n['id'])[0] == 'var':
+                texts.add(fn.expr(n['id']))
+    if len(texts) != 1:
+        raise Broken('%s: expected exactly one byte cursor, found %s' % (fn.q, sorted(texts)))
+    return texts.pop()
+
+
+def _is_read(fn, nid, text):
+    n = fn.sn(nid)
+    while n is not None and n.get('k') == 'cast' and n.get('ck') in ('NoOp', 'IntegralCast') and int_type(n.get('t')) is not None and int_type(n.get('t'))[1] == 8:
+        n = fn.sn(n['sub'])
+    return n is not None and n.get('k') == 'unop' and n.get('op') == '*' and fn.expr(n['id']) == text
+
+
+def char_aliases(fn, text):
+    """{decl id: [defining element ids]} of 8-bit locals that are (somewhere) defined as a copy of the read `text`
+    (`const char c = *s;`), and {element id: (decl id, is_copy)} for every definition of such a local."""
+    cached = fn.__dict__.setdefault('_c14_alias', {})
+    if text in cached:
+        return cached[text]
+    cand = set()
+    defs = {}
+    for n in fn.all_nodes():
+        if n.get('k') == 'decl':
+            for v in n['vars']:
+                ty = int_type(v.get('tC'))
+                if ty is not None and ty[1] == 8 and isinstance(v.get('init'), int):
+                    cp = _is_read(fn, v['init'], text)
+                    defs.setdefault(n['id'], []).append((v['d'], cp))
+                    if cp:
+                        cand.add(v['d'])
+        elif n.get('k') == 'assign':
+            l = fn.sn(n['lhs'])
+            if l is not None and l.get('k') == 'var' and int_type(l.get('t')) is not None and int_type(l.get('t'))[1] == 8:
+                cp = n['op'] == '=' and _is_read(fn, n['rhs'], text)
+                defs.setdefault(n['id'], []).append((l['d'], cp))
+                if cp:
+                    cand.add(l['d'])
+        elif n.get('k') == 'unop' and n['op'] in ('++', '--', '&'):
+            s_ = fn.sn(n['sub'])
+            if s_ is not None and s_.get('k') == 'var':
+                defs.setdefault(n['id'], []).append((s_['d'], False))
+    defs = {e: [(d, cp) for (d, cp) in ds if d in cand] for e, ds in defs.items()}
+    defs = {e: ds for e, ds in defs.items() if ds}
+    cached[text] = (cand, defs)
+    return cached[text]
+
+
+def char_leaf(text, valid):
+    """leaf predicate: the read `text` itself or a local that currently holds a copy of it"""
+    return lambda fn, n: ((n.get('k') == 'unop' and n.get('op') == '*' and fn.expr(n['id']) == text)
+                          or (n.get('k') == 'var' and n.get('d') in valid))
 
 
 def byte_states(fn, text, signed):
     """Forward may-dataflow over the CFG: the set of byte values the read `text` (e.g. `*s`) can have before every
-    element.  Edges of two-way decisions whose condition reads `text` refine the set with the exact truth set of that
-    (partial, short-circuit) condition; switch edges over the read refine by case label; joins take the union; any
-    change of the cursor variable resets the set to all bytes."""
+    element, together with the set of locals that are known (on every path) to hold a copy of that byte
+    (`const char c = *s;`, invalidated when the cursor moves or the local is reassigned).  Edges of two-way decisions
+    whose condition is a predicate over the read / its valid copies refine the set with the exact truth set of that
+    (partial, short-circuit) condition; switch edges over the read / a copy refine by case label; joins take the union
+    of the sets and the intersection of the valid copies; any change of the cursor resets the set to all bytes.
+    -> ({element: ISet}, {element: frozenset(valid copies)})"""
     cache = fn.__dict__.setdefault('_c14_bytes', {})
     if (text, signed) in cache:
         return cache[(text, signed)]
-    d = _cursor_of(fn, text)
-    leaf = deref_leaf(text)
-    mods = set(modifications(fn, d))
-    refine = {}
-    for b in fn.blocks.values():
-        if 'cond' not in b:
-            continue
-        if b.get('termcls') == 'SwitchStmt':
-            c = fn.sn(b['cond'])
-            if c is not None and c.get('k') == 'unop' and c.get('op') == '*' and fn.expr(c['id']) == text:
+    cand, adefs = char_aliases(fn, text)
+    mods = set(lvalue_modifications(fn, cursor_lvalue(fn, text)))
+    truth_cache = {}
+
+    def mentions(cond, valid):
+        if text in char_reads(fn, cond):
+            return True
+        return bool(vars_in(fn, cond) & valid)
+
+    def edge_refine(b, valid):
+        """None | ('cond', truth) | ('switch', {succ: [labels]})"""
+        blk = fn.blocks[b]
+        if 'cond' not in blk:
+            return None
+        key = (b, valid)
+        if key in truth_cache:
+            return truth_cache[key]
+        r = None
+        if blk.get('termcls') == 'SwitchStmt':
+            c = fn.sn(blk['cond'])
+            if c is not None and char_leaf(text, valid)(fn, c):
                 labels = {}
-                dflt = None
-                for s_ in b['succs']:
+                for s_ in blk['succs']:
                     if s_ is None:
                         continue
                     lab = fn.blocks[s_].get('label', {})
                     if 'case' in lab and fn.const_value(lab['case']) is not None:
                         labels.setdefault(s_, []).append(fn.const_value(lab['case']) & 0xff)
-                    else:
-                        dflt = s_
-                refine[b['id']] = ('switch', labels, dflt)
-            continue
-        if len(b['succs']) == 2 and text in char_reads(fn, b['cond']):
+                r = ('switch', labels)
+        elif len(blk['succs']) == 2 and mentions(blk['cond'], valid):
             try:
-                refine[b['id']] = ('cond', char_truth(fn, b['cond'], leaf, signed))
+                r = ('cond', char_truth(fn, blk['cond'], char_leaf(text, valid), signed))
             except Unsupported:
-                pass
-    IN = {fn.entry: BYTES}
-    before = {}
+                r = None
+        truth_cache[key] = r
+        return r
+
+    IN = {fn.entry: (BYTES, frozenset())}
+    before, before_valid = {}, {}
     work = deque([fn.entry])
     while work:
         b = work.popleft()
-        st = IN[b]
+        st, valid = IN[b]
         blk = fn.blocks[b]
         for e in blk['elems']:
             before[e] = (before[e] | st) if e in before else st
+            before_valid[e] = (before_valid[e] & valid) if e in before_valid else valid
             if e in mods:
-                st = BYTES
-        outs = []
-        r = refine.get(b)
+                st, valid = BYTES, frozenset()
+            for (dd, cp) in adefs.get(e, ()):
+                valid = (valid | {dd}) if cp else (valid - {dd})
+        r = edge_refine(b, valid)
         if r is not None and r[0] == 'cond':
             t, f = blk['succs']
             outs = [(t, st & r[1]), (f, st - r[1])]
         elif r is not None and r[0] == 'switch':
             alll = ISet.of(*[v for vs in r[1].values() for v in vs]) if r[1] else ISet()
+            outs = []
             for s_ in blk['succs']:
                 if s_ is None:
                     continue
-                if s_ in r[1]:
-                    outs.append((s_, st & ISet.of(*r[1][s_])))
-                else:
-                    outs.append((s_, st - alll))
+                outs.append((s_, st & ISet.of(*r[1][s_])) if s_ in r[1] else (s_, st - alll))
         else:
             outs = [(s_, st) for s_ in blk['succs']]
         for (s_, v) in outs:
             if s_ is None or not v:
                 continue
             old = IN.get(s_)
-            new = v if old is None else (old | v)
+            new = (v, valid) if old is None else (old[0] | v, old[1] & valid)
             if old is None or new != old:
                 IN[s_] = new
                 if s_ not in work:
                     work.append(s_)
-    cache[(text, signed)] = before
-    return before
+    cache[(text, signed)] = (before, before_valid)
+    return cache[(text, signed)]
 
 
-def char_guard_set(fn, nid, text):
-    """Exact set of byte values the read `text` can have when node nid executes (dataflow of the tests on every path
-    since the cursor last changed).  Evaluated for signed and for unsigned plain char; the results must agree.
-    Unreachable -> empty set."""
+def _elem_of(fn, nid):
     pos = fn.positions()
     if nid not in pos:
         raise Broken('%s: node without CFG position' % fn.q)
@@ -221,24 +303,61 @@ def char_guard_set(fn, nid, text):
     elems = fn.blocks[b]['elems']
     if i >= len(elems):
         raise Broken('%s: node is not a CFG element' % fn.q)
-    e = elems[i]
+    return elems[i]
+
+
+def char_guard_set(fn, nid, text):
+    """Exact set of byte values the read `text` can have when node nid executes (dataflow of the tests on every path
+    since the cursor last changed).  Evaluated for signed and for unsigned plain char; the results must agree.
+    Unreachable -> empty set."""
+    e = _elem_of(fn, nid)
     res = {}
     for sg in (True, False):
-        res[sg] = byte_states(fn, text, sg).get(e, ISet())
+        res[sg] = byte_states(fn, text, sg)[0].get(e, ISet())
     if res[True] != res[False]:
         raise Broken('%s: byte set at %s depends on the signedness of plain char (%s vs %s)' % (fn.q, fn.loc(nid), res[True].fmt(), res[False].fmt()))
     return res[True], []
 
 
-def var_guard_set(fn, nid, d, domain, resolve=None):
-    """Exact set of values of the integer variable d (inside domain) under which node nid executes.  Without a
-    resolver only guards that mention d are used (others constrain other state); with a resolver (straight-line helper
-    whose locals are all derived from d) every guard must be evaluable."""
+def valid_copies(fn, nid, text):
+    """locals that hold a copy of the read `text` when node nid executes"""
+    return byte_states(fn, text, True)[1].get(_elem_of(fn, nid), frozenset())
+
+
+def is_current_char(fn, arg, at, text):
+    """expression `arg`, evaluated as part of node `at`, denotes the byte under the cursor: the read itself or a valid copy"""
+    n = fn.sn(arg)
+    if n is None:
+        return False
+    if _is_read(fn, arg, text):
+        return True
+    first = next((e for e in fn.blocks[fn.positions()[at][0]]['elems'] if e in set(fn.subtree(at))), at)
+    return n.get('k') == 'var' and n.get('d') in valid_copies(fn, first, text)
+
+
+def depends_on(fn, nid, d, resolve, depth=0):
+    """expression nid reads variable d, directly or through locals with a unique reaching definition"""
+    if depth > 8:
+        return True
+    for x in fn.subtree(nid):
+        n = fn.nodes[x]
+        if n.get('k') == 'var' and n.get('vk') in ('local', 'param'):
+            if n.get('d') == d:
+                return True
+            e = resolve(fn, n) if resolve else None
+            if e is not None and depends_on(fn, e, d, resolve, depth + 1):
+                return True
+    return False
+
+
+def var_guard_set(fn, nid, d, domain, resolve=None, callee=None):
+    """Exact set of values of the integer variable d (inside domain) under which node nid executes.  Guards that do not
+    depend on d (directly or through locals resolved by `resolve`) constrain other state and are ignored; a guard that
+    depends on d must be evaluable exactly."""
     S = domain
-    p = Pred(fn, var_leaf(d), domain, resolve)
+    p = Pred(fn, var_leaf(d), domain, resolve, callee=callee)
     for (c, sense, _blk) in guards(fn, nid):
-        vs = vars_in(fn, c)
-        if d not in vs and resolve is None:
+        if not depends_on(fn, c, d, resolve):
             continue
         try:
             t = p.truth(c)
@@ -248,6 +367,43 @@ def var_guard_set(fn, nid, d, domain, resolve=None):
             raise Broken('%s: cannot evaluate guard %s exactly: %s' % (fn.q, fn.expr(c), e))
         S = S & (t if sense else domain - t)
     return S
+
+
+def make_callee_summary(fb):
+    """callee(fn, call_node, domain) -> (parameter index, ISet of argument values in `domain` for which the helper returns
+    true / non-zero) for calls of small pure helper functions `bool f(integer)` whose body is in the fact base; the
+    helper's body is evaluated like inlined code (guards of every return + truth set of the returned expression)."""
+    from .charset import unique_def_resolver
+
+    def callee(fn, n, domain, depth=0):
+        if depth > 3 or n.get('k') != 'call' or 'q' not in n or n.get('recv') is not None:
+            return None
+        cands = fb.fns(n['q'])
+        if len({g.pat for g in cands}) != 1:
+            return None
+        g = cands[0]
+        args = [a for a in n.get('args', []) if a is not None]
+        if len(args) != 1 or len(g.params) != 1 or int_type(g.params[0]['tC']) is None or g.loops:
+            return None
+        d = g.params[0]['d']
+        if modifications(g, d):
+            return None
+        # no side effects: only returns / declarations / pure expressions
+        for x in g.all_nodes():
+            if x.get('k') in ('call', 'construct', 'new', 'delete', 'throw') or (x.get('k') == 'assign' and (g.sn(x['lhs']) or {}).get('vk') != 'local'):
+                return None
+        res = unique_def_resolver(g)
+        sub = lambda f_, nn, dom: callee(f_, nn, dom, depth + 1)
+        p = Pred(g, var_leaf(d), domain, res, callee=sub)
+        out = ISet()
+        rets = [x for x in g.all_nodes() if x.get('k') == 'return' and 'sub' in x]
+        if not rets:
+            return None
+        for r in rets:
+            G = var_guard_set(g, r['id'], d, domain, res, sub)
+            out = out | (G & p.truth(r['sub']))
+        return 0, out
+    return callee
 
 
 # ------------------------------------------------------------------------------------------------ variable modifications / paths
